@@ -2,6 +2,7 @@
 from vlib.tok import f64, s as S, lst
 from checks import regiongen as G
 ID = 'C05'
+HARNESS_ENV = {'NIXDRV_DOOR_MOD': '1'}      # every retrieval is asked through every entry point of the public API (harness/fam_region.cpp)
 THEOREMS = ['Nix.C05.pair_region', 'Nix.C05.pair_none_empty', 'Nix.C05.ge_index_first', 'Nix.C05.axisOf_strictMono', 'Nix.C05.index_spec', 'Nix.C05.pair_spec', 'Nix.C05.dimOffsetCount_spec', 'Nix.C05.mapExcept_ok', 'Nix.C05.tagRegion_cells', 'Nix.C05.tag_region_spec', 'Nix.C05.tag_region_inside_data', 'Nix.C05.tag_cell_oob_empty', 'Nix.C05.tag_unspecified_dims_full', 'Nix.C05.tag_feature_dispatch']
 RULE = ('random tags over arrays of rank 1-3 with every combination of descriptor kinds (sampled: decimal/binary intervals, offsets; range: '
         'ascending ticks, sometimes more or fewer ticks than data; set with/without labels; data-frame), positions on / one ulp beside / between / '
